@@ -15,7 +15,7 @@ for n in range(16):
     TARGETS["vyukov.R%d" % n] = dict(src="scenarios/vyukov.cpp", defs=["-DXV_RECL=%d" % n])
 for n in range(18):  # 16 / 17 = eager hazard_pointer / hazard_eras (threshold 0: a scan on every retirement)
     TARGETS["harris.R%d" % n] = dict(src="scenarios/harris.cpp", defs=["-DXV_RECL=%d" % n])
-for n in range(16):
+for n in range(18):
     TARGETS["reclaim.R%d" % n] = dict(src="scenarios/reclaim.cpp", defs=["-DXV_RECL=%d" % n])
 
 TARGETS["deque"] = dict(src="scenarios/deque.cpp", defs=[])
@@ -253,7 +253,7 @@ def generic_jobs(list_configs, family, recls, pattern, variant, mode, execs, see
 
 
 def plan_reclaim(prop, pattern, execs_quick, execs_thorough, rule, gate_counters, weak_slice=False):
-    recls = R8 + RPLUS
+    recls = R8 + RPLUS + [17]  # 17 = eager hazard_eras (a scan on every retirement); eager hazard_pointer would only add witnesses of the hand-over finding
 
     def targets(tier):
         return [("reclaim.R%d" % r, "xrt-prod") for r in recls]
